@@ -309,6 +309,9 @@ func (w *World) verifyFunction(fn *ssa.Function, con *Contract) (vc *VC) {
 				name := fmt.Sprintf("post#%s@%s", clauseName(e, i), retNames[ri])
 				o := vc.oblige("post", name, e.Tags, r.cond, t, f.pos(r.pos))
 				o.Desc = e.Text
+				for _, rv := range rvals {
+					o.RetTerms = append(o.RetTerms, rv.(Term).S)
+				}
 			}
 		}
 		if len(f.rets) == 0 && len(con.Ensures) > 0 {
